@@ -438,6 +438,7 @@ static int vf_finish(const vf_evidence_spec *es, int deaths)
     char path[256];
     snprintf(path, sizeof path, "%s/evidence", VF_ROOT); mkdir(path, 0777);
     snprintf(path, sizeof path, "%s/evidence/%s.json", VF_ROOT, vf_g.prop);
+    if (getenv("VERIF_EVIDENCE_OUT")) snprintf(path, sizeof path, "%s", getenv("VERIF_EVIDENCE_OUT"));    /* secondary build variants of one check */
     FILE *f = fopen(path, "w");
     if (!f) vf_die("cannot write %s", path);
     fwrite(j.s, 1, j.n, f);
